@@ -3,7 +3,7 @@ EXTENDS Conv, Json
 CONSTANTS MaxVariants, MaxFields, EmitCases
 VARIABLES kind, vs, into
 
-Attrs == {"none", "from", "skip", "types", "forward"}
+Attrs == {"none", "from", "skip", "types", "forward", "empty"}
 NoInto == [n |-> 0, forms |-> {}, sattr |-> FALSE, skip |-> {}, fattr |-> 0, types |-> FALSE, split |-> "one"]
 Init == kind = "init" /\ vs = <<>> /\ into = NoInto
 StartFromStruct == kind = "init" /\ kind' = "from_struct" /\ into' = into
@@ -11,7 +11,7 @@ StartFromStruct == kind = "init" /\ kind' = "from_struct" /\ into' = into
                         (a = "types" => n >= 1) /\ vs' = <<[n |-> n, attr |-> a]>>
 StartFromEnum == kind = "init" /\ kind' = "from_enum" /\ vs' = <<>> /\ into' = into
 AddVariant == kind = "from_enum" /\ Len(vs) < MaxVariants /\ \E n \in 0..MaxFields, a \in Attrs :
-                 /\ (a \in {"types"} => n >= 1)
+                 /\ (a \in {"types", "empty"} => n >= 1)
                  \* two unit variants with #[from] would both give From<()>: not a valid input
                  /\ ~(n = 0 /\ a \in {"from", "forward"} /\ \E j \in 1..Len(vs) : vs[j].n = 0 /\ vs[j].attr \in {"from", "forward"})
                  /\ ~(a = "forward" /\ \E j \in 1..Len(vs) : vs[j].attr = "forward" /\ vs[j].n = n)    \* overlapping blanket impls
